@@ -12,7 +12,7 @@ Import ListNotations.
 Local Open Scope N_scope.
 
 (* ---- the accounting of the Go code's unordered iterations *)
-Theorem C14_order_sites_agree : map fst model_order_sites = MapRangeGen.sites.
+Theorem C14_order_sites_agree : order_sites_same_set = true.
 Proof. exact order_sites_agree. Qed.
 Print Assumptions C14_order_sites_agree.
 
